@@ -14,6 +14,14 @@ var edFields = map[string]struct {
 	cat  cat
 }{"err": {"err", cErr}, "Ctx": {"c", cCtx}, "Flags": {"fl", cCond}}
 
+// the fields of `loop` (loop.go) as fields of the Lean structure `Loop` (Gen/ImpTransPrelude.lean); `name` (a string used in
+// an error message only) has no counterpart
+var loopFields = map[string]struct {
+	lean string
+	cat  cat
+}{"c": {"c", cCtx}, "i": {"i", cNat}, "precision": {"precision", cInt}, "maxIterations": {"maxIterations", cNat},
+	"arg": {"arg", cDec}, "prevZ": {"prevZ", cDec}, "delta": {"delta", cDec}}
+
 var ctxFields = map[string]struct {
 	lean string
 	cat  cat
@@ -27,6 +35,13 @@ func goType(e ast.Expr) types.Type {
 }
 
 func (t *itr) catOf(e ast.Expr) cat {
+	if se, ok := e.(*ast.SelectorExpr); ok {
+		if v := t.env.vars[identName(se.X)]; v != nil && v.cat == cLoop {
+			if f, ok := loopFields[se.Sel.Name]; ok {
+				return f.cat
+			}
+		}
+	}
 	if id := identName(e); id != "" {
 		if v := t.env.vars[id]; v != nil {
 			return v.cat
@@ -50,6 +65,8 @@ func (t *itr) constExpr(v constant.Value, ty types.Type) (string, cat, bool) {
 		return modeLit(v, t.fn), c, true
 	case cBool:
 		return fmt.Sprint(constant.BoolVal(v)), c, true
+	case cString:
+		return fmt.Sprintf("%q", constant.StringVal(v)), c, true
 	case cInt, cNat:
 		s := v.ExactString()
 		if strings.HasPrefix(s, "-") {
@@ -127,9 +144,17 @@ func (t *itr) expr(e ast.Expr) (string, cat) {
 				x, _ := t.expr(e.X)
 				return x + "." + f.lean, f.cat
 			}
+		case cLoop, cLoopPtr:
+			if f, ok := loopFields[e.Sel.Name]; ok && f.cat != cDec {
+				x, _ := t.expr(e.X)
+				return x + "." + f.lean, f.cat
+			}
 		}
 		return t.fail("selector %s", exprString(e)), cUnknown
 	case *ast.UnaryExpr:
+		if cl, ok := e.X.(*ast.CompositeLit); ok && e.Op == token.AND && identName(cl.Type) == "loop" {
+			return t.expr(cl) // &loop{…}: the struct by value
+		}
 		switch e.Op {
 		case token.NOT:
 			x, _ := t.expr(e.X)
@@ -145,6 +170,57 @@ func (t *itr) expr(e ast.Expr) (string, cat) {
 	case *ast.BinaryExpr:
 		return t.binary(e)
 	case *ast.CompositeLit:
+		if identName(e.Type) == "loop" {
+			var parts []string
+			for _, el := range e.Elts {
+				kv, ok := el.(*ast.KeyValueExpr)
+				if !ok {
+					return t.fail("loop literal"), cUnknown
+				}
+				k := identName(kv.Key)
+				if k == "name" {
+					continue // diagnostics only
+				}
+				f, okf := loopFields[k]
+				if !okf {
+					return t.fail("loop literal: field %s", k), cUnknown
+				}
+				if f.cat == cDec {
+					// new(Decimal).Set(arg): a fresh local copy
+					call, ok := kv.Value.(*ast.CallExpr)
+					se, ok2 := func() (*ast.SelectorExpr, bool) {
+						if !ok {
+							return nil, false
+						}
+						s, o := call.Fun.(*ast.SelectorExpr)
+						return s, o
+					}()
+					if !ok2 || se.Sel.Name != "Set" || len(call.Args) != 1 {
+						return t.fail("loop literal: field %s", k), cUnknown
+					}
+					if nc, ok := se.X.(*ast.CallExpr); !ok || identName(nc.Fun) != "new" || identName(nc.Args[0]) != "Decimal" {
+						return t.fail("loop literal: field %s", k), cUnknown
+					}
+					tmp := t.fresh()
+					t.emit("let %s : Dec := {}", tmp)
+					t.env.vars[tmp] = &ivar{cat: cDec, kind: vVal, assigned: true, depth: t.depth}
+					sig := impSigs["Decimal_Set"]
+					if sig == nil {
+						return t.fail("Decimal_Set not translated"), cUnknown
+					}
+					r := t.decRef(call.Args[0])
+					if r.kind == "local" || r.kind == "const" {
+						t.define(tmp, cDec, vVal, r.name)
+					} else {
+						t.callSig(sig, &ast.Ident{Name: tmp}, call.Args, true)
+					}
+					parts = append(parts, f.lean+" := "+tmp)
+					continue
+				}
+				parts = append(parts, f.lean+" := "+t.exprAs(kv.Value, f.cat))
+			}
+			return "({ " + strings.Join(parts, ", ") + " } : Loop)", cLoop
+		}
 		if identName(e.Type) == "ErrDecimal" {
 			fs := map[string]string{}
 			for _, el := range e.Elts {
@@ -412,7 +488,7 @@ func (t *itr) conversion(e *ast.CallExpr, to types.Type) (string, cat) {
 			return x, cNat
 		}
 	case fs && !ts:
-		if tw == 32 {
+		if tw == 32 || tw == 64 {
 			return "(toU32 " + x + ")", cNat
 		}
 	}
@@ -445,12 +521,15 @@ func (t *itr) errorValue(e *ast.CallExpr) (string, bool) {
 			}
 		}
 		return t.fail("errors.New argument"), true
-	case pk == "fmt" && se.Sel.Name == "Errorf" && len(e.Args) == 2:
-		if tv, ok := info.Types[e.Args[0]]; ok && tv.Value != nil && strings.HasSuffix(constant.StringVal(tv.Value), ": %w") {
+	case pk == "fmt" && se.Sel.Name == "Errorf" && len(e.Args) >= 1:
+		if tv, ok := info.Types[e.Args[0]]; ok && len(e.Args) == 2 && tv.Value != nil && strings.HasSuffix(constant.StringVal(tv.Value), ": %w") {
 			x, c := t.expr(e.Args[1])
 			if c == cErr {
 				return x, true // a wrapped error keeps its class
 			}
+		}
+		if tv, ok := info.Types[e.Args[0]]; ok && tv.Value != nil && !strings.Contains(constant.StringVal(tv.Value), "%w") {
+			return "ErrKind.other", true // a fresh error value (its text is not modelled)
 		}
 		return t.fail("fmt.Errorf form"), true
 	}
@@ -654,8 +733,8 @@ func (t *itr) callSig(sig *isig, recv ast.Expr, args []ast.Expr, stmt bool) ([]s
 				id = identName(u.X)
 			}
 			v := t.env.vars[id]
-			if v == nil || v.cat != cED || v.kind != vVal {
-				t.fail("call of %s: the ErrDecimal must be a local", sig.key)
+			if v == nil || (v.cat != cED && v.cat != cLoop) || v.kind != vVal {
+				t.fail("call of %s: the struct must be a local", sig.key)
 			}
 			as = append(as, id)
 			wbs = append(wbs, wb{id: id, k: pEDIO})
@@ -789,7 +868,7 @@ func (t *itr) callSig(sig *isig, recv ast.Expr, args []ast.Expr, stmt bool) ([]s
 			case pDecIO:
 				t.define(w.id, cDec, vVal, v)
 			case pEDIO:
-				t.define(w.id, cED, vVal, v)
+				t.define(w.id, t.env.vars[w.id].cat, vVal, v)
 			}
 		}
 	}
@@ -901,6 +980,9 @@ func (t *itr) allLocalDecArgs(args []ast.Expr) bool {
 			id := identName(a)
 			if u, ok := a.(*ast.UnaryExpr); ok && u.Op == token.AND {
 				id = identName(u.X)
+				if se, ok := u.X.(*ast.SelectorExpr); ok && t.catOf(se) == cDec {
+					continue
+				}
 			}
 			if v := t.env.vars[id]; v != nil {
 				if v.cat != cDec {
@@ -954,6 +1036,9 @@ func (t *itr) localDecMethod(recv ast.Expr, name string, args []ast.Expr) ([]str
 		return nil, nil
 	case name == "Abs" && len(args) == 1:
 		t.define(r.name, cDec, vVal, "Apd.Dec.absD "+localArg(args[0]))
+		return nil, nil
+	case name == "Neg" && len(args) == 1:
+		t.define(r.name, cDec, vVal, "Apd.Dec.negD "+localArg(args[0]))
 		return nil, nil
 	case name == "Set" && len(args) == 1:
 		t.define(r.name, cDec, vVal, valArg(args[0]))
